@@ -46,18 +46,25 @@ def fmt(x):
     return str(int(xf))
 
 
-def run_impl(det, chunks, as_float=None):
-    """Run the real detector on the chunk list; return a dict of observables."""
+EXPS = [-44, -30, 20, 40]
+
+
+def run_impl(det, chunks, as_float=None, exp=0):
+    """Run the real detector on the chunk list; return a dict of observables.
+    `exp`: the samples are multiplied by 2**exp before they are fed and the reported values are divided by it again -
+    exact in IEEE arithmetic, so the result must be identical for every exp (the counting rules only compare samples and
+    absolute differences of samples); it exposes absolute tolerances hidden in the code."""
     d, rec = make(det)
+    sc = 2.0 ** exp
     for c in chunks:
-        arr = np.asarray(c, dtype=np.float64)
+        arr = np.asarray(c, dtype=np.float64) * sc
         if as_float is not None:
             arr = as_float(arr)
         d.process(arr)
     out = {
-        "from": list(np.asarray(rec.values_from, dtype=float)),
-        "to": list(np.asarray(rec.values_to, dtype=float)),
-        "residuals": list(np.asarray(d.residuals, dtype=float)),
+        "from": list(np.asarray(rec.values_from, dtype=float) / sc),
+        "to": list(np.asarray(rec.values_to, dtype=float) / sc),
+        "residuals": list(np.asarray(d.residuals, dtype=float) / sc),
         "rindex": [int(x) for x in np.asarray(d.residual_index).astype(np.int64)],
         "chunks": [int(x) for x in rec.chunks],
     }
@@ -258,6 +265,8 @@ class C01(Prop):
             yield {"det": det, "signal": sig, "lens": lens, "mode": mode}
             if rng.random() < 0.2:
                 yield {"det": det, "signal": sig, "lens": lens, "mode": mode, "float": True}
+            if rng.random() < 0.25:
+                yield {"det": det, "signal": sig, "lens": lens, "mode": mode, "exp": rng.choice(EXPS)}
 
     def model_lines(self, case):
         if case.get("float"):
@@ -267,7 +276,7 @@ class C01(Prop):
     def impl_lines(self, case):
         if case.get("float"):
             return []
-        o = run_impl(case["det"], split(case["signal"], case["lens"]))
+        o = run_impl(case["det"], split(case["signal"], case["lens"]), exp=case.get("exp", 0))
         self._count(case, o)
         return [canon(case["det"], o)]
 
@@ -288,8 +297,8 @@ class C01(Prop):
         tf = (lambda a: a * 0.1 + 0.3) if case.get("float") else None
         if case.get("float"):
             self.stats["float_cases"] += 1
-        a = run_impl(det, split(sig, lens), tf)
-        b = run_impl(det, [sig], tf)
+        a = run_impl(det, split(sig, lens), tf, exp=case.get("exp", 0))
+        b = run_impl(det, [sig], tf, exp=case.get("exp", 0))
         for k in ("from", "to", "ifrom", "ito", "residuals", "rindex"):
             if k in a and a[k] != b[k]:
                 return (f"chunked {lens} differs from one piece in {k}: {a[k]} vs {b[k]}", "chunk-dependence")
@@ -297,7 +306,7 @@ class C01(Prop):
             rec = a["_rec"]
             vals = np.asarray(sig, dtype=float)
             if tf:
-                vals = tf(vals)
+                vals = tf(vals * 2.0 ** case.get("exp", 0)) / 2.0 ** case.get("exp", 0)
             chunks = split(list(vals), lens)
             for idx, val in list(zip(a["ifrom"], a["from"])) + list(zip(a["ito"], a["to"])):
                 k, j = rec.chunk_local_index(np.asarray([idx]))
@@ -387,6 +396,8 @@ class C02(Prop):
             yield {"det": det, "signal": sig, "mode": mode}
             # the rules must be realised for every way of feeding the signal (C02 *_chunked theorems)
             yield {"det": det, "signal": sig, "mode": mode, "lens": random_cuts(rng, n)}
+            # ... and at every scale: samples times an exact power of two (absolute tolerances in the code show up here)
+            yield {"det": det, "signal": sig, "mode": mode, "exp": rng.choice(EXPS), "lens": random_cuts(rng, n) if rng.random() < 0.5 else None}
         # exhaustive: every partition of every plateau-rich signal over 3 values up to length 6 (quick: 5)
         ml = 5 if tier == "quick" else 6
         for n in range(2, ml + 1):
@@ -402,7 +413,7 @@ class C02(Prop):
 
     def impl_lines(self, case):
         det = case["det"]
-        o = run_impl(det, split(case["signal"], case["lens"]) if case.get("lens") else [case["signal"]])
+        o = run_impl(det, split(case["signal"], case["lens"]) if case.get("lens") else [case["signal"]], exp=case.get("exp", 0))
         s = self.stats
         s["by_detector"][det] = s["by_detector"].get(det, 0) + 1
         s["by_mode"][case["mode"]] = s["by_mode"].get(case["mode"], 0) + 1
@@ -427,7 +438,7 @@ class C02(Prop):
 
     def oracle(self, case):
         det, sig = case["det"], case["signal"]
-        o = run_impl(det, split(sig, case["lens"]) if case.get("lens") else [sig])
+        o = run_impl(det, split(sig, case["lens"]) if case.get("lens") else [sig], exp=case.get("exp", 0))
         tps = ref_turning_points(sig)
         if det in ("fourpoint", "threepoint"):
             cycles, resid = ref_fourpoint(tps)
@@ -603,6 +614,29 @@ class C03(Prop):
             idx2, vals2 = find_turns(np.asarray(clean))
             if list(vals) != list(vals2):
                 return (f"turn values with NaNs {list(vals)} != without {list(vals2)}", "nan-values")
+            # through the detectors: values as for the cleaned signal, indices address the reported values in the ORIGINAL
+            # signal, also when the signal with NaNs arrives in chunks
+            import random as _random
+            r = _random.Random(len(full) * 7919 + sum(case["nan_at"]))
+            det = DETS[(len(full) + case["nan_at"][0]) % 3]
+            with warnings.catch_warnings():
+                warnings.simplefilter("ignore")
+                ref_run = run_impl(det, [clean])
+                one = run_impl(det, [list(full)])
+                cuts = random_cuts(r, len(full))
+                chunked = run_impl(det, split(list(full), cuts))
+            for k in ("from", "to"):
+                if one[k] != ref_run[k]:
+                    return (f"{det}: cycle values with NaN samples {one[k]} != without {ref_run[k]}", "nan-values")
+                if chunked[k] != one[k]:
+                    return (f"{det}: signal with NaNs fed in chunks {cuts}: {k} {chunked[k]} != one piece {one[k]}", "nan-chunked")
+            if det != "fkm":
+                for ik, vk in (("ifrom", "from"), ("ito", "to")):
+                    for i, v in zip(one[ik], one[vk]):
+                        if not (0 <= i < len(full) and full[i] == v):
+                            return (f"{det}: with NaN samples the reported index {i} does not address the value {v} in the original signal", "nan-index")
+                    if chunked[ik] != one[ik]:
+                        return (f"{det}: signal with NaNs fed in chunks {cuts}: {ik} {chunked[ik]} != one piece {one[ik]}", "nan-chunked")
             return None
         if kind == "sym":
             self.stats["sym_cases"] += 1
@@ -615,6 +649,18 @@ class C03(Prop):
             for k in ("from", "to", "residuals"):
                 if o[k] != base[k]:
                     return (f"{det}: refinement by non-reversals changed {k}: {base[k]} -> {o[k]} (signal {sig} -> {ref})", "refinement")
+            # the same when the refined signal arrives in chunks (borders inside the inserted plateaus / runs)
+            cuts = random_cuts(r, len(ref))
+            oc = run_impl(det, split(ref, cuts))
+            for k in ("from", "to", "residuals"):
+                if oc[k] != base[k]:
+                    return (f"{det}: refinement by non-reversals, fed in chunks {cuts}, changed {k}: {base[k]} -> {oc[k]} (signal {sig} -> {ref})", "refinement")
+            # scaling by an exact power of two (a positive affine map for three-/four-point, a positive scale for FKM)
+            for e in EXPS:
+                sc = run_impl(det, [sig], exp=e)
+                for k in ("from", "to", "residuals", "ifrom", "ito", "rindex"):
+                    if k in base and sc[k] != base[k]:
+                        return (f"{det}: scaling the signal by 2**{e} changes {k} (after scaling back): {base[k]} -> {sc[k]} (signal {sig})", "affine")
             if det != "fkm":
                 # indices move with the samples: the refined index must address an equal sample within the same plateau/run
                 for k in ("ifrom", "ito"):
